@@ -700,6 +700,9 @@ func (c *fctx) rangeStmt(x *ast.RangeStmt, en *env, lc *lctx, next kont) string 
 	} else if t.exprType(x.X).k != kSlice {
 		t.fail(x, "range over %s", tv.Type)
 	} else if t.exprType(x.X).str && !(x.Value == nil && c.asciiConst20(x.X)) { // [ext:T20] ranging over a string decodes runes
+		if t.spec.Str17 { // [ext:T17] range over a string: one rune per iteration
+			return c.rangeStr17(x, en, lc, next)
+		}
 		t.fail(x, "range over a string (only the index form over a constant ASCII string is supported)")
 	}
 	arrLen := int64(-1) // [ext:T20] ranging over an array: the bound is the array length of the type
